@@ -1030,6 +1030,13 @@ class Engine:
             extra = {kname: k, "it_": self.view(it)}
         hv = self.loop_views(fr, extra)
         self.assume(inv.fn(self.pre, hv))
+        if inv.hints is not None:
+            for lem, largs in inv.hints(self.pre, hv):
+                q = getattr(lem, 'statement', None)
+                if q is None:
+                    q = lem.formula
+                assert z3.is_quantifier(q) and q.is_forall() and q.num_vars() == len(largs)
+                self.pc.append(z3.substitute_vars(q.body(), *[lift(x) for x in reversed(largs)]))
         dec0 = inv.decreases(self.pre, hv) if inv.decreases else None
         # 3. branch on the loop condition
         if is_for:
